@@ -2,6 +2,7 @@
 C09 — Pattern search reports exactly the occurrences, in order.
 -/
 import Sqroot.Proofs.Search
+import Sqroot.Proofs.EndToEnd
 namespace Sqroot.Props.C09
 open Sqroot.Model Sqroot.Proofs
 
@@ -59,5 +60,22 @@ theorem first_n (p : List Int) (hp : p ≠ []) (T : List Int) (s : Int) (n : Nat
 
 /-- non-vacuity: overlapping occurrences of a pattern with a non-trivial border -/
 example : Spec.occurrences [1, 2, 1] [1, 2, 1, 2, 1, 3, 1, 2, 1] = [0, 2, 6] := by decide
+
+/-- end to end (v3 `FindFirstN` on any view of a Number): composition of the view read path over the
+memoizer with the KMP search — the result is the first n occurrences inside the view's window
+(restricted to its first `bound` digits, `bound` arbitrary), reported as absolute positions. -/
+theorem findFirstN_end_to_end (c : MemoCfg) (m : Memo) (b v : Val3) (chain : List ViewOp)
+    (pat : List Int) (hp : pat ≠ []) (n bound : Nat) (hn : 0 < n)
+    (hb : IsBase3 b) (hv : applyChain3 b chain = some v)
+    (hfit : Fits c m.src (Spec.winOf (chain.map toSpecOp)) bound) :
+    let w := Spec.winOf (chain.map toSpecOp)
+    let T : List Int := (Spec.windowList m.src.len m.src.digit w bound).map fun x => (x.2 : Int)
+    ∃ m' cnt, findFirstN3 c m v pat n bound
+        = .ok (m', ((Spec.occurrences pat T).take n).map (shiftPos (max w.lo 0)), cnt) := by
+  intro w T
+  obtain ⟨m', cnt, h, _⟩ :=
+    Sqroot.Proofs.findFirstN_end_to_end c m b v chain pat hp n bound hn hb hv hfit (m.maxLength : Int)
+      (by unfold DemandLe; omega)
+  exact ⟨m', cnt, h⟩
 
 end Sqroot.Props.C09
